@@ -111,6 +111,28 @@ pub fn run(args: &Args, rep: &mut Report) {
             }
         }
     }
+    // wide selector lists: one rule with n disjoint ranges in one selector and a second rule
+    // starting mid-column / on a cut / spanning several / in a gap (2n cuts in one paving dimension)
+    for (i, (n, variant)) in super::c07::wide_ladder(args.thorough()).into_iter().enumerate() {
+        if (i as u64) % args.of.max(1) != args.worker || rep.full() {
+            continue;
+        }
+        let (text, _) = super::c07::wide_list_text(n, variant);
+        let Ok(ast) = lib_parse(&text) else { continue };
+        rep.evaluations += 1;
+        rep.begin(&format!("wide list: n = {n}, variant {variant}"));
+        let mut r = Rng::new(args.seed, 0x51de, i as u64);
+        match check(&ast, &HolSpec::None, &mut r) {
+            Ok(_) => {
+                rep.count("wide_list_expressions");
+                rep.max("wide_list_max_ranges", n as u64);
+            }
+            Err(msg) => {
+                let short: String = msg.chars().take(600).collect();
+                rep.violation("normalization_idempotence", format!("one rule with {n} disjoint ranges in one selector and a second rule (variant {variant}): {short}"), json!({"expr": text, "holidays": "none"}), None);
+            }
+        }
+    }
     // combination grid: pairs / triples of canonical rules over plain and wrapping ranges
     for (i, text) in normalize_grid(args.thorough(), args.seed + 1).iter().enumerate() {
         if (i as u64) % args.of.max(1) != args.worker {
